@@ -235,6 +235,22 @@ pub fn run(ctx: &Ctx, rep: &Report) -> Meta {
     );
     let b = shaped(ctx.seed ^ 77, big, false);
     par_items(ctx, rep, "fixed-shapes", &b, |c| check(rep, "fixed-shapes", c));
+    // every size along the axes and the diagonal
+    let kmax = ctx.tier.pick(40usize, 130usize);
+    let mut sw: Vec<(usize, usize)> = vec![];
+    for k in 4..=kmax {
+        sw.push((k, 0));
+        sw.push((0, k));
+        sw.push((k, k / 2 + 1));
+        sw.push((k % 5, k));
+    }
+    let c = shaped(ctx.seed ^ 0x5EE5, &sw, false);
+    // one suite per shape is enough here (the shapes list doubles otherwise)
+    let c: Vec<Case> = c.into_iter().enumerate().filter(|(i, _)| i % 2 == (i / 2) % 2).map(|(_, x)| x).collect();
+    par_items(ctx, rep, "size-sweep", &c, |c| check(rep, "size-sweep", c));
+    if !rep.aborted() {
+        rep.exhaustive(format!("shapes (k, 0), (0, k), (k, k/2+1), (k mod 5, k) for every k in 4..={}", kmax));
+    }
     let tier = ctx.tier;
     run_cases(ctx, rep, "random-shapes", ctx.tier.pick(64, 600), 100, || strat(tier), |c| check(rep, "random-shapes", c));
     Meta {
